@@ -393,8 +393,8 @@ var _ raftpb.Entry
 // C06: opening and deleting a group. Opening seeds the log with the dummy entry (index 0, term 0: the reference storage's
 // ents[0]) only when the first-index lookup found nothing under the group's prefix - a log that holds anything is never reset
 // by a reopen, and a read error ends the process instead of wiping the group. Deleting a group wipes every entry key (scan
-// from index 0), its hard state and its snapshot, drops the cache, and goes to disk in one flush; the seed entries of a
-// reset are written after the wipe, each under the key of its own index.
+// from index 0), its hard state and its snapshot (in any order), drops the cache, and goes to disk in one flush; the seed
+// entries of a reset are queued after the wipe of the entry keys (a batch applies in order), each under the key of its own index.
 //@ func (*storage/wal.badgerWAL).reset
 //@ props C06
 //@ safety UNCLAIMED
@@ -423,9 +423,9 @@ var _ raftpb.Entry
 //@ set ssKey = $ret0
 //@ end
 //@ at call WriteBatch).Delete
-//@ requires [C06 hard-state-and-snapshot-go-with-the-group] $arg0 == theBatch && wiped == 1 && written == 0 && ((hsDeleted == 0 && ssDeleted == 0 && hsKey != nil && $arg1 == hsKey) || (hsDeleted == 1 && ssDeleted == 0 && ssKey != nil && $arg1 == ssKey))
-//@ set ssDeleted = ite(hsDeleted == 1, 1, 0)
-//@ set hsDeleted = 1
+//@ requires [C06 hard-state-and-snapshot-go-with-the-group] $arg0 == theBatch && flushed == 0 && ((hsDeleted == 0 && hsKey != nil && $arg1 == hsKey) || (ssDeleted == 0 && ssKey != nil && $arg1 == ssKey))
+//@ set ssDeleted = ite(ssKey != nil && $arg1 == ssKey, 1, ssDeleted)
+//@ set hsDeleted = ite(hsKey != nil && $arg1 == hsKey, 1, hsDeleted)
 //@ end
 //@ at call Entry).Marshal
 //@ set data = $ret0
@@ -435,7 +435,7 @@ var _ raftpb.Entry
 //@ set key = $ret0
 //@ end
 //@ at call WriteBatch).Set
-//@ requires [C06 seed-entries-after-the-wipe-under-their-own-keys] $arg0 == theBatch && hsDeleted == 1 && ssDeleted == 1 && $arg1 == key && keyIdx == entry.Index && $arg2 == data && flushed == 0
+//@ requires [C06 seed-entries-after-the-wipe-under-their-own-keys] $arg0 == theBatch && wiped == 1 && $arg1 == key && keyIdx == entry.Index && $arg2 == data && flushed == 0
 //@ set written = written + 1
 //@ end
 //@ at call WriteBatch).Flush
